@@ -41,6 +41,7 @@ def output_filter(prog, rep):
 
 def sweep_rules(prog, rep):
     rep.rule("THRESHOLD", "pairs are consecutive elements of the list sorted by timestamp; the fill branch is entered on gap <= pulsetime (non-strict) with gap = e2.ts - (e1.ts + e1.dur); every other gap literal on a fill path is a lower bound that every positive gap satisfies")
+    rep.rule("FILL-NEXT", "in every fill sub-branch the right neighbour's end is preserved (e2.ts' + e2.dur' = e2.ts + e2.dur): e2 is the left element of the next pair, so the next gap is measured from its end; an emptied e2 must be parked at the merged end")
     rep.rule("FILL", "per fill sub-branch (constant propagation of affine forms): differing data => e1.ts' + e1.dur' = e2.ts', e1.ts' = e1.ts, e2.end' = e2.end (gap closed, nothing lost, no overlap created); equal data => one of the two covers [e1.ts, e2.end] and the other has duration 0")
     fi = prog.func("flood")
     loops = [n for n in fi.node.body if isinstance(n, ast.For)]
@@ -53,6 +54,11 @@ def sweep_rules(prog, rep):
     if not okp:
         return
     e1, e2 = [norm(x) for x in lp.target.elts]
+    from ..sqlmodel import local_defs
+
+    pt = fi.params[1] if len(fi.params) > 1 else "pulsetime"
+    rb = local_defs(fi, pt)
+    rep.check(not rb, "THRESHOLD", fi.short, "pulsetime used as given", f"`{pt}` is not re-bound", f"`{pt}` is re-bound (`{norm(rb[0]) if rb else ''}`): the threshold is no longer the caller's pulsetime (e.g. `pulsetime or DEFAULT` turns 0 into the default and closes gaps longer than asked for)", fi.loc(rb[0]) if rb else fi.loc())
     env = Env(fi, prog, inline_locals=False)
 
     def data_eq(e):
@@ -123,6 +129,8 @@ def sweep_rules(prog, rep):
             rep.check(ok, "FILL", fi.short, cons[:80], "equal data: one event covers [e1.ts, e2.end], the other is emptied", f"equal data: after the merge e1 = [{t1!r}, +{d1!r}], e2 = [{t2!r}, +{d2!r}]: the merged event does not cover [e1.ts, e2.end] or the other is not emptied (time lost or counted twice)", fi.loc(lp), expected="one covers [e1.ts, e2.ts + e2.dur], the other has duration 0", found=f"e1=[{t1!r}; {d1!r}] e2=[{t2!r}; {d2!r}]")
         else:
             rep.violation("FILL", fi.short, cons[:80], "neighbours are rewritten on a path that does not compare their data: labels can be merged across different data", fi.loc(lp))
+        # the right neighbour is the left element of the next pair: the next gap is measured from its end
+        rep.check(t2 + d2 == end2, "FILL-NEXT", fi.short, cons[:80], "e2.ts' + e2.dur' == e2.ts + e2.dur", f"after the fill the right neighbour ends at {(t2 + d2)!r} instead of its original end {end2!r}: it is the left element of the next pair, so the next gap is measured from the wrong instant (a chain of three events then overlaps or keeps a short gap open)", fi.loc(lp), expected=f"{end2!r}", found=f"{(t2 + d2)!r}")
     rep.floor("flood fill sub-branches", n_fill, 4)
     # zero gap is skipped
     return n_fill
@@ -172,6 +180,8 @@ VARIANTS = [
     ("B e2 moved without keeping its end", F, "                    e2.timestamp = e1.timestamp + e1.duration\n                    e2.duration = e2_end - e2.timestamp", "                    e2.timestamp = e1.timestamp + e1.duration", "FILL"),
     ("B merged event loses e2's length", F, "                    e1.duration = e2_end - e1.timestamp\n                    e2.timestamp = e2_end", "                    e1.duration = e2.timestamp - e1.timestamp\n                    e2.timestamp = e2_end", "FILL"),
     ("B discard e1 without extending e2", F, "                    e2.timestamp = e1.timestamp\n                    e2.duration = e2_end - e2.timestamp\n                    e1.duration = timedelta(0)", "                    e1.duration = timedelta(0)", "FILL"),
+    ("B emptied neighbour left at its old start", F, "                    e1.duration = e2_end - e1.timestamp\n                    e2.timestamp = e2_end\n", "                    e1.duration = e2_end - e1.timestamp\n", "FILL-NEXT"),
+    ("B falsy-zero pulsetime default", F, "    events = deepcopy(events)\n", "    pulsetime = pulsetime or 5\n    events = deepcopy(events)\n", "THRESHOLD"),
     ("B unsorted pairs", F, "    events = sorted(events, key=lambda e: e.timestamp)\n", "", "THRESHOLD"),
     ("OK comparison flipped", F, "if e1.duration >= e2.duration:", "if e2.duration <= e1.duration:", "ok"),
     ("OK temp inlined", F, "                    e2.duration = e2_end - e2.timestamp\n                    e1.duration = timedelta(0)", "                    e2.duration = e2_end - e1.timestamp\n                    e1.duration = timedelta(0)", "ok"),
